@@ -5,7 +5,9 @@ import json
 
 import lib
 
-KINDS = ["e", "200", "302", "404", "503"]          # transport error, 2xx, 3xx, 4xx, 5xx
+# transport error, 2xx, 3xx, 4xx, 5xx: the 4xx and 5xx representatives sit ON the boundary of the
+# "status below 500" test, so the exhaustive block itself decides `< 500` against `<= 500` / `< 499`
+KINDS = ["e", "200", "302", "499", "500"]
 EDGE = ["e", "E200", "E503", "E404", "100", "199", "200", "204", "299", "301", "399", "400",
         "404", "418", "499", "500", "501", "502", "503", "599", "600", "0", "1000"]
 
@@ -111,20 +113,24 @@ def main(run):
     run.log("cases:", len(cases))
     obs = run_probe(probe, cases, 2000, 256)
     mism = coq_mismatches(run, cases, obs, "c20cases")
-    # timing-based sleep counting can be disturbed by scheduling stalls: re-run
-    # every mismatching case alone, slowly, and keep it only if it persists
-    confirmed = []
-    pending = [idx for idx, _ in mism[:40]]
-    last = {}
-    for attempt in range(2):
-        if not pending:
-            break
-        sub = [cases[i] for i in pending]
-        o2 = run_probe(probe, sub, 20000, 4)
-        m2 = coq_mismatches(run, sub, o2, "c20re_%d" % attempt)
-        last = {pending[j]: (v, o2[j]) for j, v in m2}
-        pending = [pending[j] for j, _ in m2]
-    confirmed = [(i, last[i][0], last[i][1]) for i in pending]
+    # timing-based sleep counting can be disturbed by scheduling stalls: EVERY mismatching case is re-run
+    # alone, slowly, and kept only if it persists (none is dropped unexamined); when there are more
+    # mismatches than a stall can explain they are reported as they are
+    RERUN_CAP = 3000
+    if len(mism) > RERUN_CAP:
+        confirmed = [(i, v, obs[i]) for i, v in mism]
+    else:
+        pending = [idx for idx, _ in mism]
+        last = {}
+        for attempt in range(2):
+            if not pending:
+                break
+            sub = [cases[i] for i in pending]
+            o2 = run_probe(probe, sub, 20000, 8)
+            m2 = coq_mismatches(run, sub, o2, "c20re_%d" % attempt)
+            last = {pending[j]: (v, o2[j]) for j, v in m2}
+            pending = [pending[j] for j, _ in m2]
+        confirmed = [(i, last[i][0], last[i][1]) for i in pending]
     for idx, v, o in confirmed[:5]:
         n, sc = cases[idx]
         replay = {"kind": "property-fails-on-implementation" if v == 2 else "correspondence-broken",
@@ -153,6 +159,8 @@ def main(run):
         "exhaustive": bool(run.thorough()),
         "traces_validated_against_impl": len(cases),
         "calls_distribution": {str(k): v for k, v in sorted(dist.items())},
+        "mismatches_first_pass": len(mism),
+        "mismatches_confirmed_on_slow_rerun": len(confirmed),
         "timing_mismatches_not_reproduced": len(mism) - len(confirmed),
         "samples": [{"n": n, "script": sc, "observed": o} for (n, sc), o in
                     [(cases[i], obs[i]) for i in (7, len(cases) // 2, len(cases) - 3)]],
@@ -160,6 +168,10 @@ def main(run):
     return run.finish(cov, assumptions=[
         "sleeping is observed as a gap >= d between consecutive calls of the scripted transport "
         "(d = 2 ms; mismatches are re-measured with d = 20 ms); real elapsed time is not modelled",
+        "only a LOWER bound on the waiting is observed: a sleep longer than d, or one after the last attempt, would pass",
+        "n + 1 does not overflow Go's int (the model's n is an unbounded Z)",
+        "the exhaustive block pads scripts shorter than n+1 with transport errors, so it contains duplicates: "
+        "it is exhaustive for the property's bound, its size is not a count of distinct inputs",
         "a RoundTripper returning (nil, nil) is outside the model (contract violation; the code would dereference nil)",
     ])
 
